@@ -7,6 +7,7 @@ import (
 	"runtime"
 	"strings"
 	"sync"
+	"time"
 
 	"pgregory.net/rapid"
 )
@@ -85,18 +86,28 @@ var _ rapid.TB = (*recTB)(nil)
 // It returns the recovered panic value, if any.
 func runTB(f func()) (panicked any) {
 	done := make(chan struct{})
+	var p any
 	go func() {
 		defer close(done)
 		defer func() {
 			if r := recover(); r != nil {
-				panicked = r
+				p = r
 			}
 		}()
 		f()
 	}()
-	<-done
-	return
+	select {
+	case <-done:
+		return p
+	case <-time.After(hangLimit):
+		// the call never came back (it keeps spinning on its goroutine): a hang is an outcome too
+		return fmt.Sprintf("hang: no result within %v", hangLimit)
+	}
 }
+
+// every call into rapid made through runTB finishes within seconds (minimization is given at
+// most 30 s); anything slower than this is reported as a hang
+const hangLimit = 75 * time.Second
 
 func tbToken(traceback string) string {
 	h := sha1.Sum([]byte(traceback))
